@@ -295,6 +295,29 @@ def is_structural_atom(a):
     return False
 
 
+def _is_assertion_switch(b, s_):
+    """switch block one of whose edges leads straight (gotos / argument-building calls) into a diverging core::panicking call"""
+    t = b.blocks[s_]["term"] if 0 <= s_ < len(b.blocks) else None
+    if not t or t["k"] != "switch":
+        return False
+    tg = [x[1] for x in t["arms"]] + [t["else"]]
+
+    def panics(bb0, depth=0):
+        if depth > 8:
+            return False
+        tt = b.blocks[bb0]["term"]
+        if tt["k"] == "goto":
+            return panics(tt["t"], depth + 1)
+        if tt["k"] == "call":
+            nm = str(tt.get("resolved") or tt.get("callee") or "")
+            if "panicking::" in nm and tt.get("t") is None:
+                return True
+            if tt.get("t") is not None and (tt.get("exp") or "fmt::" in nm or "Arguments" in nm or "AssertKind" in nm or "Option::" in nm):
+                return panics(tt["t"], depth + 1)
+        return False
+    return any(panics(x) for x in tg)
+
+
 def extra_guards(prog, b, bb, recognised, assume=()):
     """guard atoms dominating block bb that are neither structural nor accepted by one of the `recognised` predicates"""
     out = []
@@ -305,6 +328,8 @@ def extra_guards(prog, b, bb, recognised, assume=()):
             continue
         if is_structural_atom(a):
             continue
+        if len(a) > 3 and a[3] is not None and _is_assertion_switch(b, a[3]):
+            continue        # the success edge of an assert!/assert_eq!: a (reviewed) panic site, not a filter
         if any(r(a) for r in recognised):
             continue
         out.append(a)
